@@ -38,7 +38,7 @@ func getScoreRange(left []byte, right []byte) (float64, float64, error) {
 		if err != nil {
 			return leftRange, rightRange, err
 		}
-		if leftRange <= common.MinScore || leftRange >= common.MaxScore {
+		if math.IsNaN(leftRange) || leftRange <= common.MinScore || leftRange >= common.MaxScore {
 			return leftRange, rightRange, errInvalidRange
 		}
 		if isLOpen {
@@ -58,7 +58,7 @@ func getScoreRange(left []byte, right []byte) (float64, float64, error) {
 		if err != nil {
 			return leftRange, rightRange, err
 		}
-		if rightRange <= common.MinScore || rightRange >= common.MaxScore {
+		if math.IsNaN(rightRange) || rightRange <= common.MinScore || rightRange >= common.MaxScore {
 			return leftRange, rightRange, errInvalidRange
 		}
 		if isROpen {
